@@ -169,9 +169,29 @@ func (r *Run) Finish() error {
 	}
 	if len(internOrder) > 0 {
 		var tb strings.Builder
-		tb.WriteString("From Saml Require Import Base.Bytes.\n")
+		tb.WriteString("From Saml Require Import Base.Bytes Base.Pack.\nFrom Coq Require Import Uint63.\n")
 		for i, v := range internOrder {
-			fmt.Fprintf(&tb, "Definition str_%d : bytes := Eval vm_compute in hx \"%s\".\n", i, hex.EncodeToString([]byte(v)))
+			// 7 bytes per primitive integer, 250 integers per piece; left unevaluated (the VM unpacks them when a case runs):
+			// string literals cost ~100 us per character to parse and long evaluated lists overflow Coq's stack
+			var parts []string
+			for off := 0; off < len(v); off += 1750 {
+				end := off + 1750
+				if end > len(v) {
+					end = len(v)
+				}
+				var ints []string
+				for j := off; j < end; j += 7 {
+					var chunk [7]byte
+					copy(chunk[:], v[j:min(j+7, end)])
+					ints = append(ints, "0x"+hex.EncodeToString(chunk[:]))
+				}
+				parts = append(parts, fmt.Sprintf("pk %d [%s]%%uint63", end-off, strings.Join(ints, "; ")))
+			}
+			if len(parts) == 1 {
+				fmt.Fprintf(&tb, "Definition str_%d : bytes := %s.\n", i, parts[0])
+			} else {
+				fmt.Fprintf(&tb, "Definition str_%d : bytes := bconcat [%s].\n", i, strings.Join(parts, "; "))
+			}
 		}
 		if err := os.WriteFile(filepath.Join(r.Dir, "strtab.v"), []byte(tb.String()), 0o644); err != nil {
 			return err
